@@ -44,6 +44,10 @@ def pick_prob(rng):
         return 1.0
     if r < 0.3:
         return float(10 ** rng.uniform(-6, -2))
+    if r < 0.38:
+        return float(1.0 - 10 ** rng.uniform(-9, -3))  # just below one: not the "exactly one" special case
+    if r < 0.42:
+        return float(10 ** rng.uniform(-12, -7))  # just above zero
     return float(rng.uniform(0, 1))
 
 
